@@ -2,6 +2,7 @@ package codec
 
 import (
 	"encoding/base64"
+	"encoding/json"
 	"fmt"
 	"math"
 	"time"
@@ -84,8 +85,13 @@ func (enc *encoder) encodeAny(anyField j5reflect.AnyField) error {
 
 	var jsonData []byte
 	if val.J5Json != nil {
+		// copied into the output as it is: it has to be one JSON value
+		if !json.Valid(val.J5Json) {
+			return fmt.Errorf("any type %q: j5_json is not a valid JSON value", val.TypeName)
+		}
 		jsonData = val.J5Json
-	} else if val.Proto != nil {
+	} else if val.Proto != nil || val.TypeName != "" {
+		// no content at all is the empty message of the named type
 
 		mt, err := enc.codec.resolver.FindMessageByName(protoreflect.FullName(val.TypeName))
 		if err != nil {
@@ -102,6 +108,8 @@ func (enc *encoder) encodeAny(anyField j5reflect.AnyField) error {
 			return err
 		}
 		jsonData = innerBytes
+	} else {
+		return fmt.Errorf("any value has neither a type nor content")
 	}
 
 	enc.openObject()
